@@ -1,6 +1,7 @@
 import LachesisVerif.Proofs.ProcessorOrder
 import LachesisVerif.Proofs.ProcessorInv
 import LachesisVerif.Proofs.ProcessorRel
+import LachesisVerif.Proofs.ProcessorBalOps
 /-!
 # C15 — Event processor releases every event and balances its semaphore
 
@@ -17,6 +18,17 @@ arithmetic regenerated from `utils/datasemaphore`), `process()` with the far-fut
 reassembly loop of `Enqueue` (loop conditions regenerated), the C14 buffer, all run by the single
 inserter over the accepted batches in `Enqueue` order. Oracles: `CheckParents`/`Process` results, the
 arrival order of the asynchronous `CheckParentless` results (`POp.deliver`), the position of `Stop`.
+
+Semaphore clause: `C15_semaphore_within_capacity` (held ≤ capacity, always) and
+`C15_semaphore_balanced` (the warning callback — over-release — never fires, held = acquired − released
+always, hence zero once everything is released), the latter for operation sequences that are
+well-formed in the sense of `wfOps`: no (batch id, position) check result is delivered twice, which is
+what the real processor guarantees (one `checkedC` channel per batch, every check callback fires once).
+Without this hypothesis an unordered batch would hand the same event to `process()` twice and the
+statement is false (`C15_double_delivery_warns`); `C15_semaphore_balanced_partial` is the hypothesis-free
+conditional form. Proof: the semaphore always holds at least the copies waiting in the ordering buffer
+plus what the pending inserter tasks will still hand to `process()` (`Proofs/ProcessorBal*.lean`,
+weighted release accounting of the buffer in `Proofs/BufferWeight.lean`).
 
 **Partial by nature**: goroutine interleavings beyond these oracles (a `quit` racing with a half
 handled batch, `Acquire` waiting while another goroutine releases) are not exhibited by the model; the
@@ -132,16 +144,12 @@ theorem C15_semaphore_within_capacity (cfg : Cfg) (O : Oracle) (capNum capSize h
   have := prun_semInv capNum capSize hN hS O ops _ hv h0
   exact ⟨this.1, this.2.1⟩
 
-/-- **Semaphore balance** (*partial*). Full statement: "the held amount returns to zero once all events
-    are released", i.e. held = (events and bytes of accepted batches) − (events and bytes released),
-    always. Proved: exactly this equation for every operation sequence **as long as the semaphore's
-    warning callback has not fired** (`warned = false`; the flag is raised by `relTag` exactly when it
-    logs `PCb.warn`, i.e. when `Release` finds less held than it is asked to release). In particular,
-    once as many events and bytes are released as were acquired, the held amount is zero.
-    Missing: that the warning never fires, i.e. that no event is released twice across the processor and
-    the buffer (per buffer copy this is `C14_safety`; the bookkeeping that ties enqueued events to
-    buffer copies is not proved). The stream `proc` logs the warning callback (`W`) and the judge
-    checks the balance on the implementation's trace at `Stop`. -/
+/-- **Semaphore balance, conditional form** (kept; superseded by `C15_semaphore_balanced`). For every
+    operation sequence — well-formed or not — held = (events and bytes of accepted batches) − (events
+    and bytes released) **as long as the semaphore's warning callback has not fired** (`warned = false`;
+    the flag is raised by `relTag` exactly when it logs `PCb.warn`, i.e. when `Release` finds less held
+    than it is asked to release). That the warning never fires needs the well-formedness of the
+    deliveries and is `C15_semaphore_balanced`. -/
 theorem C15_semaphore_balanced_partial (cfg : Cfg) (O : Oracle) (capNum capSize highest : Nat) (conn : List Nat)
     (hN : capNum < 4294967296) (hS : capSize < 18446744073709551616)
     (ops : List POp) (hv : ∀ op ∈ ops, validOp op) :
@@ -158,6 +166,42 @@ theorem C15_semaphore_balanced_partial (cfg : Cfg) (O : Oracle) (capNum capSize 
   intro h1 h2
   obtain ⟨b1, b2⟩ := hbal
   omega
+
+/-- **Semaphore balance** (full clause: "… and returns to zero once all events are released"). For every
+    sequence of `Enqueue`s, arrivals of check results in any order and interleaving, and `Stop`s, in which
+    no (batch id, position) check result is delivered twice (`wfOps`), every oracle and capacities within
+    Go's integer types: the semaphore's warning callback never fires (no `Release` ever finds less held
+    than it is asked to release: the ghost flag stays down and no `PCb.warn` is in the trace), the held amount is exactly (events and bytes acquired by accepted
+    batches) − (events and bytes released), and therefore it is zero once as many events and bytes are
+    released as were acquired. Batch ids need not be distinct beyond `wfOps` (a delivery is seen by every
+    pending batch carrying its id). -/
+theorem C15_semaphore_balanced (cfg : Cfg) (O : Oracle) (capNum capSize highest : Nat) (conn : List Nat)
+    (hN : capNum < 4294967296) (hS : capSize < 18446744073709551616)
+    (ops : List POp) (hv : ∀ op ∈ ops, validOp op) (hwf : wfOps ops) :
+    let p := prun O (Proc.init cfg capNum capSize highest conn) ops
+    (p.st.warned = false ∧ PCb.warn ∉ p.st.trace) ∧
+      (p.st.sem.num + p.st.relNum = p.st.acqNum ∧ p.st.sem.size + p.st.relSize = p.st.acqSize) ∧
+      (p.st.relNum = p.st.acqNum → p.st.relSize = p.st.acqSize → p.st.sem.num = 0 ∧ p.st.sem.size = 0) := by
+  intro p
+  have h0 : SemInv capNum capSize (Proc.init cfg capNum capSize highest conn).st :=
+    ⟨Nat.zero_le _, Nat.zero_le _, Nat.le_refl _, Nat.le_refl _, fun _ => ⟨rfl, rfl⟩⟩
+  have hbalInv : Bal conn [] p :=
+    prun_bal conn capNum capSize hN hS O ops _ hv hwf h0 (bal_init cfg capNum capSize highest conn ops)
+  have hw : p.st.warned = false := hbalInv.2.1
+  have hflag : WarnFlag p.st := prun_warnFlag O ops _ (fun hm => by cases hm)
+  have hnot : PCb.warn ∉ p.st.trace := fun hm => by
+    have := hflag hm
+    rw [hw] at this; cases this
+  exact ⟨⟨hw, hnot⟩, C15_semaphore_balanced_partial cfg O capNum capSize highest conn hN hS ops hv hw⟩
+
+/-- the hypothesis `wfOps` is needed: delivering the check result of position 1 of an unordered batch
+    (events of 10 and 30 bytes) twice makes `process()` release the 30-byte event twice, and the second
+    `Release` (30 bytes asked, 10 held) fires the warning -/
+theorem C15_double_delivery_warns :
+    (prun Oracle.allOk (Proc.init ⟨3, 1000⟩ 10 1000 0 [])
+      [.enq 0 false [⟨0, ⟨1, [], 10⟩, 1⟩, ⟨1, ⟨2, [], 30⟩, 1⟩], .deliver 0 1 6, .deliver 0 1 6]).st.warned = true ∧
+    ¬ wfOps [.enq 0 false [⟨0, ⟨1, [], 10⟩, 1⟩, ⟨1, ⟨2, [], 30⟩, 1⟩], .deliver 0 1 6, .deliver 0 1 6] := by
+  decide
 
 /-- Unordered batches: every arriving result is handled at once, so the events are handed to `process()`
     in arrival order, each exactly once, and the batch finishes with the last result. -/
@@ -280,6 +324,16 @@ def exD : Item := ⟨3, ⟨4, [1], 10⟩, 50⟩     -- far future
 def exRun : Proc := prun Oracle.allOk (Proc.init ⟨3, 1000⟩ 10 1000 0 [])
   [.enq 0 false [exB, exA], .enq 1 true [exC, exD], .deliver 1 1 0, .deliver 0 0 6, .deliver 0 1 0,
    .deliver 1 0 0, .stop]
+def exOps : List POp :=
+  [.enq 0 false [exB, exA], .enq 1 true [exC, exD], .deliver 1 1 0, .deliver 0 0 6, .deliver 0 1 0,
+   .deliver 1 0 0, .stop]
+/-- the hypotheses of `C15_semaphore_balanced` hold for this run (and `exRun` is this run) -/
+example : wfOps exOps ∧ exRun = prun Oracle.allOk (Proc.init ⟨3, 1000⟩ 10 1000 0 []) exOps :=
+  ⟨by decide, rfl⟩
+example : ∀ op ∈ exOps, validOp op := by
+  intro op h
+  simp only [exOps, List.mem_cons, List.not_mem_nil, or_false] at h
+  rcases h with h | h | h | h | h | h | h <;> subst h <;> first | trivial | decide
 example : exRun.st.sem.num = 0 ∧ exRun.st.sem.size = 0 ∧ exRun.st.relNum = 4 ∧ exRun.st.acqNum = 4 ∧
     exRun.st.warned = false ∧ exRun.st.buf.inc = [] ∧ exRun.st.buf.n = 2 ∧ exRun.st.handled = [3, 2, 0, 1] ∧
     cRel 2 exRun.st.trace = 1 := by
